@@ -1,6 +1,7 @@
 package core
 
 import (
+	"go/token"
 	"os"
 	"path/filepath"
 	"runtime"
@@ -228,5 +229,87 @@ func TestFlattenMethodValue(t *testing.T) {
 	}
 	if !found {
 		t.Fatal("the bound method's body was not inlined into its wrapper")
+	}
+}
+
+// A helper with one unconditional defer is inlined; the deferred call is made
+// where the helper returns.
+func TestFlattenLowersDefer(t *testing.T) {
+	p := loadFlat(t, "fix.FlatDefer")
+	fn := p.Func("fix", "FlatDefer")
+	if callsTo(fn, "lockedGet") != 0 {
+		t.Fatal("call to lockedGet left")
+	}
+	if err := fn.SanityCheck(); err != nil {
+		t.Fatal(err)
+	}
+	var seq []string
+	for _, b := range fn.Blocks {
+		for _, in := range b.Instrs {
+			switch x := in.(type) {
+			case *ssa.Call:
+				if c := x.Call.StaticCallee(); c != nil {
+					seq = append(seq, c.Name())
+				}
+			case *ssa.Defer, *ssa.RunDefers:
+				t.Fatalf("defer machinery left in FlatDefer: %s", in)
+			}
+		}
+	}
+	if strings.Join(seq, ",") != "Lock,Unlock" {
+		t.Fatalf("calls in FlatDefer: %v, want Lock then Unlock", seq)
+	}
+}
+
+// `go helper(args)` becomes a literal of the starting function that captures
+// the variables the arguments came from.
+func TestFlattenRehomesGo(t *testing.T) {
+	p := loadFlat(t, "fix.FlatGo", "fix.FlatGo$")
+	fn := p.Func("fix", "FlatGo")
+	var lit *ssa.Function
+	for _, b := range fn.Blocks {
+		for _, in := range b.Instrs {
+			if g, ok := in.(*ssa.Go); ok {
+				mc, ok := g.Call.Value.(*ssa.MakeClosure)
+				if !ok {
+					t.Fatalf("go statement still calls %s", g.Call.Value)
+				}
+				lit = mc.Fn.(*ssa.Function)
+			}
+		}
+	}
+	if lit == nil {
+		t.Fatal("no go statement")
+	}
+	if err := lit.SanityCheck(); err != nil {
+		t.Fatal(err)
+	}
+	if err := fn.SanityCheck(); err != nil {
+		t.Fatal(err)
+	}
+	// the channel closed by the goroutine is the variable the deferred literal receives from
+	var closed, received *ssa.Alloc
+	for _, l := range Closures(fn) {
+		for _, b := range l.Blocks {
+			for _, in := range b.Instrs {
+				switch x := in.(type) {
+				case *ssa.Defer:
+					if bi, ok := x.Call.Value.(*ssa.Builtin); ok && bi.Name() == "close" && l == lit {
+						v := x.Call.Args[0]
+						if ct, ok := v.(*ssa.ChangeType); ok {
+							v = ct.X
+						}
+						closed = p.CellRoot(v.(*ssa.UnOp).X)
+					}
+				case *ssa.UnOp:
+					if x.Op == token.ARROW && l != lit {
+						received = p.CellRoot(x.X.(*ssa.UnOp).X)
+					}
+				}
+			}
+		}
+	}
+	if closed == nil || closed != received {
+		t.Fatalf("closed %v, received %v: not the same variable", closed, received)
 	}
 }
